@@ -577,6 +577,9 @@ fn random_outcome(rng: &mut Rng, allow_sync: bool) -> Outcome {
     }
 }
 
+/// With `previous`: the previous incarnation left only the placeholder record (see run_sequence_on).
+static PLACEHOLDER_PREVIOUS: std::sync::atomic::AtomicBool = std::sync::atomic::AtomicBool::new(false);
+
 const NONSYNC: [Outcome; 8] = [Outcome::Unsync, Outcome::Stale, Outcome::BadLeap, Outcome::Future, Outcome::NoReplyGrace, Outcome::NoReply, Outcome::PhcFailGrace, Outcome::PhcFail];
 
 /// Run one sequence on a fresh daemon incarnation (optionally over a segment left by a previous
@@ -591,7 +594,18 @@ fn run_sequence_on(a: &Args, prop: &str, seq: &[Outcome], drift: u32, previous: 
     let path = if real_run { std::path::PathBuf::from(rig::REAL_SHM_PATH) } else { dir.join("shm") };
     let _ = std::fs::remove_file(&path);
     clock::fixed::set((T0_REAL_S, 0), (50, 0));
-    if previous {
+    let placeholder_previous = previous && PLACEHOLDER_PREVIOUS.load(std::sync::atomic::Ordering::SeqCst);
+    if placeholder_previous {
+        // A previous incarnation never synchronised: all it left behind is the placeholder record
+        // (Unknown, bound 0, as of 0). Real ShmWriter as the sink, before and after the restart.
+        let mut d0 = Daemon::start_plain(&path, drift);
+        d0.send(Outcome::NoReply.message((20, 7), T0_REAL_S as i128 * NS));
+        if !matches!(d0.wait_publication(), Wait::Published) {
+            return Err("previous incarnation did not publish".into());
+        }
+        d0.stop();
+        *stats.entry("restarts-over-a-placeholder-record".to_string()).or_insert(0) += 1;
+    } else if previous {
         // A previous incarnation left a Synchronized record behind.
         let mut d0 = Daemon::start(&path, drift, true);
         d0.send(Outcome::Sync { a: 100, b: 100, c: 100, phc: 0, ivl_log2: 4, age_permille: 10 }.message((20, 7), T0_REAL_S as i128 * NS));
@@ -600,7 +614,7 @@ fn run_sequence_on(a: &Args, prop: &str, seq: &[Outcome], drift: u32, previous: 
         }
         d0.stop();
     }
-    let mut d = if real_run { Daemon::start_real_run(drift) } else { Daemon::start(&path, drift, true) };
+    let mut d = if real_run { Daemon::start_real_run(drift) } else if placeholder_previous { Daemon::start_plain(&path, drift) } else { Daemon::start(&path, drift, true) };
     let c = std::ffi::CString::new(path.to_str().unwrap()).unwrap();
     let mut persistent: Option<clock_bound_shm::ShmReader> = if previous { clock_bound_shm::ShmReader::new(&c).ok() } else { None };
     // Reference model.
@@ -863,6 +877,13 @@ fn mode_c08_c09(a: &Args, prop: &str) -> Value {
                     if let Some(e) = run(seq.clone(), 1000, previous, &mut violations, &mut stats) {
                         inconclusive = Some(e);
                     }
+                }
+                if seq.len() <= 2 {
+                    PLACEHOLDER_PREVIOUS.store(true, std::sync::atomic::Ordering::SeqCst);
+                    if let Some(e) = run(seq.clone(), 1000, true, &mut violations, &mut stats) {
+                        inconclusive = Some(e);
+                    }
+                    PLACEHOLDER_PREVIOUS.store(false, std::sync::atomic::Ordering::SeqCst);
                 }
             }
             if seq.len() < maxlen {
